@@ -375,6 +375,10 @@ def _atomic_neighbours(t):
     """ancestors, children and siblings of an atomic type + unions (all generalized atomic)"""
     out = [a for a in rs.ancestors(t) if a not in rs.NON_ATOMIC]
     out += _CHILDREN.get(t, []) + _CHILDREN.get(rs.BASE.get(t, ''), [])
+    # cousins: every type derived from the same primitive type (xs:unsignedInt vs xs:int, xs:ID vs xs:NMTOKEN ...)
+    prim = [a for a in rs.ancestors(t) if rs.BASE.get(a) == 'xs:anyAtomicType']
+    if prim:
+        out += [x for x in rs.ATOMIC_TYPES if prim[0] in rs.ancestors(x)]
     if rs.derives_from(t, 'xs:numeric') or t == 'xs:anyAtomicType':
         out.append('xs:numeric')
     return [x for x in out if x not in rs.NON_ATOMIC and x != 'xs:dateTimeStamp'] or [t]
@@ -496,8 +500,14 @@ def inline_function_value(draw):
     return ['F', [rs.render(sanitize(a)) for a in args], rs.render(sanitize(ret))]
 
 
-function_value = st.one_of(inline_function_value(), inline_function_value(),
-                           st.sampled_from(FN_NAMES).map(lambda n: ['FN', n]))
+@st.composite
+def _function_value(draw):
+    if draw(st.integers(0, 2)) == 0:
+        return ['FN', draw(st.sampled_from(FN_NAMES))]
+    return draw(inline_function_value())
+
+
+function_value = _function_value()
 
 
 @st.composite
@@ -536,8 +546,24 @@ def array_value(draw):
     return ['R', draw(st.lists(simple_member(), max_size=3))]
 
 
-item_value = st.one_of(atom_value, atom_value, atom_value, node_value, node_value, function_value,
-                       map_value(), array_value())
+@st.composite
+def _item_value(draw):
+    # explicit weights (one_of would flatten and de-duplicate the alternatives)
+    k = draw(st.integers(0, 15))
+    if k < 7:
+        return draw(atom_value)
+    if k < 11:
+        return draw(node_value)
+    if k < 13:
+        return draw(function_value)
+    if k == 13:
+        return draw(map_value())
+    if k == 14:
+        return draw(array_value())
+    return draw(st.sampled_from(FN_NAMES).map(lambda n: ['FN', n]))
+
+
+item_value = _item_value()
 
 
 @st.composite
@@ -653,14 +679,26 @@ def type_string_for(draw, desc):
     return s
 
 
+_XSD11_TYPES = ['xs:dateTimeStamp', 'xs:dateTimeStamp?', 'xs:dateTimeStamp*', 'xs:dateTimeStamp+', 'xs:dateTime', 'xs:dateTime+',
+                'xs:error', 'xs:error?', 'xs:error*', 'xs:error+', 'xs:anyAtomicType+', 'map(xs:dateTimeStamp, xs:error?)',
+                'array(xs:dateTimeStamp)', 'function(xs:dateTimeStamp) as xs:error?']
+
+
 @st.composite
 def judge_case(draw):
     flavour = draw(st.sampled_from(['et', 'et', 'lx']))
+    xsd = '1.1' if draw(st.integers(0, 7)) == 0 else '1.0'
     v = draw(value())
+    if xsd == '1.1' and draw(st.booleans()):
+        dts = ['A', 'xs:dateTimeStamp', "xs:dateTimeStamp('2000-01-01T12:00:00Z')"]
+        v = draw(st.sampled_from([dts, ['S', [dts, dts]], ['S', [dts, ['A', 'xs:dateTime', "xs:dateTime('2000-01-01T12:00:00Z')"]]],
+                                  ['S', []]]))
     desc = describe(v, flavour)
     ts = draw(st.lists(type_string_for(desc), min_size=4, max_size=8))
+    if xsd == '1.1':
+        ts = ts[:5] + draw(st.lists(st.sampled_from(_XSD11_TYPES), min_size=2, max_size=3))
     ctx = draw(st.sampled_from([None, None, 1, 2, 4, 6, 7]))
-    return {'doc': flavour, 'xsd': '1.0', 'ctx': ctx, 'v': v, 'ts': ts,
+    return {'doc': flavour, 'xsd': xsd, 'ctx': ctx, 'v': v, 'ts': ts,
             'route': draw(st.sampled_from(['var', 'inline']))}
 
 
@@ -940,6 +978,8 @@ def judge_judgement(case, rec: Recorder | None = None) -> list[Disc]:
             classes.append('v:map-or-array')
         if flavour == 'lx':
             classes.append('doc:lxml')
+        if xsd == '1.1':
+            classes.append('xsd:1.1')
         for c in classes:
             rec.cls(c)
 
@@ -1138,6 +1178,16 @@ def model_bucket(f):
         if 'attribute(' in rs.render_item(it) or (x is not None and x[0] == 'func' and
                                                    'attribute(' in rs.render_item(['function', x[1], x[2]])):
             return f'C18/{obs}/typed-function-test/attribute-test-in-signature/' + ('false-positive' if fp else 'false-negative')
+    # M14/M15 (reachable once occurrence indicators inside map()/array() parse): the `source` text of nested tests is
+    #     lossy - an attribute test renders as 'attribute', a function(*) test loses its occurrence indicator - and
+    #     map()/array() tests and recorded signatures are matched through that text
+    full = rs.render(ast) + ' ' + ' '.join(rs.render_item(['function', d[1], d[2]]) for d in f['desc'] if d[0] == 'func')
+    if it is not None and it[0] in ('map', 'array', 'function') and it[1] is not None:
+        import re
+        if inst and it[0] in ('map', 'array') and 'attribute(' in rs.render_item(it):
+            return f'C18/instance/lossy-source-of-nested-test/attribute/' + ('false-positive' if fp else 'false-negative' if fn else kind)
+        if re.search(r'function\(\*\)[?*+]', full) and (fp or fn):
+            return f'C18/{obs}/lossy-source-of-nested-test/function-star-occurrence/' + ('false-positive' if fp else 'false-negative')
     # M5 typed function test on a function item: which component does elementpath's subtype relation judge
     #    differently from XPath 3.1 2.5.6?  (unsound = accepts a non-subtype, incomplete = refuses a subtype)
     if it is not None and it[0] == 'function' and it[1] is not None and (fp or fn):
@@ -1584,7 +1634,7 @@ def signature_case(draw, sig):
         if v is None:
             return None
         args.append(v)
-    return {'fn': name, 'arity': arity, 'args': args, 'ret': ret, 'doc': draw(st.sampled_from(['et', 'lx'])),
+    return {'fn': name, 'arity': arity, 'args': args, 'doc': draw(st.sampled_from(['et', 'lx'])),
             'ctx': draw(st.sampled_from([None, 1, 2, 4, 6]))}
 
 
@@ -1659,6 +1709,14 @@ def describe_result_seq(v, depth=0):
     return [describe_result(v, depth)]
 
 
+def declared_return_type(name, arity) -> str:
+    """the return type registered in elementpath for name#arity, read at judge time (a replayed case must be
+    judged against the declaration of the tree under test)"""
+    if 'sigs' not in _state:
+        _state['sigs'] = {(s[0], s[1]): s[3] for s in signatures()}
+    return _state['sigs'][name, arity]
+
+
 def judge_signature(case, rec: Recorder | None = None) -> list[Disc]:
     discs: list[Disc] = []
     parser, root, nodes = env(case['doc'], '1.0')
@@ -1675,17 +1733,18 @@ def judge_signature(case, rec: Recorder | None = None) -> list[Disc]:
     else:
         classes.append('sig:success')
         res = describe_result_seq(got[1])
-        ret = rs.parse(case['ret'])
+        declared = declared_return_type(name, arity)
+        ret = rs.parse(declared)
         if "('pynone',)" in repr(res):
-            discs.append(Disc(f'C18/signature/{tag}/returns-python-None-as-item', case['ret'], repr(got[1])[:200], expr))
+            discs.append(Disc(f'C18/signature/{tag}/returns-python-None-as-item', declared, repr(got[1])[:200], expr))
         elif not rs.matches(res, ret, SIG_NS):
             rc = value_class(res)
             if len(res) == 1 and res[0][0] == 'atom':
                 rc = res[0][1]
-            discs.append(Disc(f'C18/signature/{tag}/returns-{rc}', case['ret'], repr(got[1])[:200], expr))
+            discs.append(Disc(f'C18/signature/{tag}/returns-{rc}', declared, repr(got[1])[:200], expr))
     if rec is not None:
         rec.case([name, arity, case['args'], case['ctx']], nontrivial=got[0] == 'ok', classes=classes,
-                 sample={'check': 'signature', 'call': expr, 'declared': case['ret']})
+                 sample={'check': 'signature', 'call': expr, 'declared': declared_return_type(name, arity)})
         if got[0] == 'ok':
             ok = rec.extra.setdefault('_sig_ok', {})
             ok[tag] = ok.get(tag, 0) + 1
@@ -1717,17 +1776,14 @@ def selftest():
 def jobs(tier, seed):
     q = tier == 'quick'
     out = []
-    nj, per = (10, 1500) if q else (14, 26000)
+    nj, per = (10, 1500) if q else (12, 22000)
     for i in range(nj):
         out.append({'check': 'judge', 'shard': i, 'n': per, 'seed': derive_seed(seed, 'C18', 'judge', i)})
-    n = len(POOL_TYPES)
-    k = 2
-    for i in range(k):
-        out.append({'check': 'subtype-pool', 'rows': list(range(i, n, k))})
-    ng, perg = (1, 6000) if q else (2, 60000)
+    out.append({'check': 'subtype-pool', 'rows': list(range(len(POOL_TYPES)))})
+    ng, perg = (2, 3000) if q else (2, 50000)
     for i in range(ng):
         out.append({'check': 'subtype-gen', 'shard': i, 'n': perg, 'seed': derive_seed(seed, 'C18', 'subtype-gen', i)})
-    ks, pers = (3, 40) if q else (6, 400)
+    ks, pers = (3, 40) if q else (2, 400)
     for i in range(ks):
         out.append({'check': 'signature', 'shard': i, 'of': ks, 'n': pers, 'seed': derive_seed(seed, 'C18', 'signature', i)})
     return out
